@@ -38,9 +38,7 @@ def slabGrowCount (s : Slab) : Nat :=
 def slabGrowReq (s : Slab) : Nat := slabGrowCount s * s.finalSize + slabFragHdr
 
 /-- addresses of `count` objects of size `fs` starting at `area` -/
-def slabObjs (area fs : Nat) : Nat → List Nat
-  | 0 => []
-  | n + 1 => slabObjs area fs n ++ [area + n * fs]
+def slabObjs (area fs n : Nat) : List Nat := (List.range n).map fun i => area + i * fs
 
 /-- `grow(slab)` when the parent returned `a` -/
 def slabGrow (s : Slab) (a : Nat) : Slab :=
